@@ -181,3 +181,70 @@ macro_rules! verif_eprintln {
     () => { $crate::verif::err(format_args!("\n")) };
     ($fmt:expr $(, $($tt:tt)*)?) => { $crate::verif::err(format_args!(concat!($fmt, "\n") $(, $($tt)*)?)) };
 }
+
+// ---------------------------------------------------------------------------
+// Scripted keys for the interactive line editor (`debugger::VerifTerminal`).
+
+pub use crate::term::Key;
+
+/// Panic payload: the scripted keys are used up (raised by `term::read_key`).
+#[derive(Debug, Clone, Copy)]
+pub struct VerifKeysEnd;
+
+/// What the line editor is about to draw, recorded once before every key is read.
+#[derive(Debug, Clone, PartialEq, Eq)]
+pub struct EditObs {
+    /// Focused line (the buffer, or a history entry).
+    pub current: String,
+    pub buffer: String,
+    /// Character index.
+    pub cursor: usize,
+    /// Focused history index (`== history_len`: the new line).
+    pub index: usize,
+    pub history_len: usize,
+}
+
+thread_local! {
+    static KEYS: RefCell<Option<VecDeque<Key>>> = const { RefCell::new(None) };
+    static KEYS_DRAW: Cell<bool> = const { Cell::new(false) };
+    static EDIT_OBS: RefCell<Vec<EditObs>> = const { RefCell::new(Vec::new()) };
+}
+
+/// From now on `term::read_key` on this thread yields `keys`, then unwinds with [`VerifKeysEnd`];
+/// raw mode is left alone. With `draw == false` the prompt is not drawn either.
+pub fn script_keys(keys: Vec<Key>, draw: bool) {
+    KEYS.with(|k| *k.borrow_mut() = Some(keys.into()));
+    KEYS_DRAW.with(|d| d.set(draw));
+    EDIT_OBS.with(|o| o.borrow_mut().clear());
+}
+
+pub fn unscript_keys() {
+    KEYS.with(|k| *k.borrow_mut() = None);
+}
+
+pub fn keys_scripted() -> bool {
+    KEYS.with(|k| k.borrow().is_some())
+}
+
+pub fn keys_draw() -> bool {
+    KEYS_DRAW.with(|d| d.get())
+}
+
+pub fn next_key() -> Key {
+    match KEYS.with(|k| k.borrow_mut().as_mut().and_then(VecDeque::pop_front)) {
+        Some(key) => key,
+        None => std::panic::panic_any(VerifKeysEnd),
+    }
+}
+
+pub fn edit_observe(obs: EditObs) {
+    EDIT_OBS.with(|o| o.borrow_mut().push(obs));
+}
+
+pub fn edit_observation_count() -> usize {
+    EDIT_OBS.with(|o| o.borrow().len())
+}
+
+pub fn take_edit_observations() -> Vec<EditObs> {
+    EDIT_OBS.with(|o| std::mem::take(&mut *o.borrow_mut()))
+}
